@@ -29,15 +29,27 @@ func main() {
 		mk   func() *characteristic.Characteristic
 	}{
 		{"NewTargetTiltAngle", func() *characteristic.Characteristic { return characteristic.NewTargetTiltAngle().Characteristic }},
-		{"NewTargetHorizontalTiltAngle", func() *characteristic.Characteristic { return characteristic.NewTargetHorizontalTiltAngle().Characteristic }},
-		{"NewTargetVerticalTiltAngle", func() *characteristic.Characteristic { return characteristic.NewTargetVerticalTiltAngle().Characteristic }},
+		{"NewTargetHorizontalTiltAngle", func() *characteristic.Characteristic {
+			return characteristic.NewTargetHorizontalTiltAngle().Characteristic
+		}},
+		{"NewTargetVerticalTiltAngle", func() *characteristic.Characteristic {
+			return characteristic.NewTargetVerticalTiltAngle().Characteristic
+		}},
 		{"NewCurrentTiltAngle", func() *characteristic.Characteristic { return characteristic.NewCurrentTiltAngle().Characteristic }},
 		{"NewBrightness", func() *characteristic.Characteristic { return characteristic.NewBrightness().Characteristic }},
 		{"NewActiveIdentifier", func() *characteristic.Characteristic { return characteristic.NewActiveIdentifier().Characteristic }},
 		{"NewSetDuration", func() *characteristic.Characteristic { return characteristic.NewSetDuration().Characteristic }},
+		// unsigned formats without declared bounds: the range of the format is all there is (F53)
+		{"NewActive", func() *characteristic.Characteristic { return characteristic.NewActive().Characteristic }},
+		{"NewChargingState", func() *characteristic.Characteristic { return characteristic.NewChargingState().Characteristic }},
+		{"NewLockManagementAutoSecurityTimeout", func() *characteristic.Characteristic {
+			return characteristic.NewLockManagementAutoSecurityTimeout().Characteristic
+		}},
 	}
 	values := []interface{}{float64(-45), float64(-90), float64(-1), float64(-0.5), float64(0), float64(30), float64(-91), "-30", -7,
-		float64(2147483647), float64(2147483648), float64(3000000000), float64(4294967301)}
+		float64(2147483647), float64(2147483648), float64(3000000000), float64(4294967301),
+		float64(255), float64(256), float64(300), float64(65536), float64(1e30), float64(-1e30), float64(9.3e18), float64(1.9e19),
+		"18446744073709551615", "-9223372036854775809", "300", uint64(1 << 63), uint32(4000000000), int64(-5)}
 	for _, ct := range ctors {
 		for _, v := range values {
 			c := ct.mk()
@@ -49,7 +61,7 @@ func main() {
 			default:
 				c.UpdateValue(v)
 			}
-			fmt.Printf("%s %T(%v) -> %T(%v) min=%v max=%v\n", ct.name, v, v, c.Value, c.Value, c.MinValue, c.MaxValue)
+			fmt.Printf("%s %T(%v) -> %T(%v) min=%v max=%v format=%s\n", ct.name, v, v, c.Value, c.Value, c.MinValue, c.MaxValue, c.Format)
 		}
 	}
 }
